@@ -19,7 +19,7 @@ from multiprocessing import Pool
 
 
 class Variant:
-    def __init__(self, name, kind, file, old=None, new=None, expect=None, function=None, count=1, also=(), lines=()):
+    def __init__(self, name, kind, file, old=None, new=None, expect=None, function=None, count=1, also=(), lines=(), scope=None):
         self.name = name
         self.kind = kind            # 'break' | 'neutral'
         self.file = file            # path relative to repo root
@@ -29,10 +29,17 @@ class Variant:
         self.function = function
         self.count = count          # which occurrence (1-based); 0 = all
         self.also = also            # extra (file, old, new, count) edits applied together
+        self.scope = scope          # text marker (e.g. 'def randmio_dir('): edits apply from its first occurrence on
         self.lines = lines          # [(lineno, expected_stripped_text, replacement_line_without_indent)] line edits in `file`
 
 
-def _apply_one(text, old, new, count):
+def _apply_one(text, old, new, count, scope=None):
+    if scope is not None:
+        k = text.find(scope)
+        if k < 0:
+            return None
+        rest = _apply_one(text[k:], old, new, count)
+        return None if rest is None else text[:k] + rest
     if old not in text:
         return None
     if count == 0:
@@ -79,7 +86,7 @@ def _run_variant(args):
                 return (v.name, 'skipped', 'file missing')
             with open(p) as f:
                 text = f.read()
-            t2 = _apply_one(text, old, new, count)
+            t2 = _apply_one(text, old, new, count, v.scope if file == v.file else None)
             if t2 is None:
                 return (v.name, 'skipped', 'anchor text absent')
             with open(p, 'w') as f:
